@@ -349,6 +349,29 @@ func init() {
 				Budget: sim.Budget{Cuts: 2, Crashes: 1, Restarts: 1, Steps: 16, Reorders: -1, MsgSteps: 3, Deviations: d}})
 		}
 	}
+	// C16 seed S-removedcandidate: n2 won a prevote from n1 at a moment n1 had not
+	// heard from the leader, became a real candidate of term 2 and was cut off
+	// with its vote requests still in flight; the leader n0 (term 1) has since
+	// removed n2 from the cluster (committed with n1), so it never contacts n2
+	// again: n2's vote requests are the only way its higher term can travel.
+	removedCandidate := append(append([]sim.Event{}, seedLeader3...), sim.MustParse("timeout n2", "rt 2>1:RV#0 a=2", "isolate n2", "remove n0 a=2",
+		"drop 0>2:AE#2", "rt 0>1:AE#2", "adv", "adv")...)
+	for d := 0; d <= 6; d++ {
+		reg(&explore.Suite{Name: fmt.Sprintf("removedcand3-d%d", d), Cfg: sim.Config{Voters: 3, Timed: true, Asym: true}, Seed: removedCandidate,
+			Monitors: stickyMonitors(0, []int{0, 1}), Filter: onlyNodes(2),
+			Budget: sim.Budget{Cuts: 2, Crashes: 1, Restarts: 1, Steps: 12, Reorders: -1, MsgSteps: 3, Deviations: d}})
+	}
+	// C16 seed S-candidatecut: n2 lost the election of term 1 as a real candidate
+	// and was cut off before it heard from the winner n0; 10 intervals later.
+	candidateCut := sim.MustParse("timeout n0", "rt 0>1:RV#0 a=2", "timeout n2", "rt 2>1:RV#0 a=2", "rt 0>1:RV#1", "rt 2>1:RV#1",
+		"rt 0>2:RV#0", "rt 0>2:RV#1", "rt 2>0:RV#0", "rt 2>0:RV#1", "isolate n2", "rt 0>1:AE#0", "rt 0>1:AE#1",
+		"drop 0>2:AE#0", "drop 0>2:AE#1",
+		"adv", "adv", "adv", "adv", "adv", "adv", "adv", "adv", "adv", "adv")
+	for d := 0; d <= 6; d++ {
+		reg(&explore.Suite{Name: fmt.Sprintf("candcut3-d%d", d), Cfg: sim.Config{Voters: 3, Timed: true, Asym: true}, Seed: candidateCut,
+			Monitors: stickyMonitors(0, []int{0, 1}), Filter: onlyNodes(2),
+			Budget: sim.Budget{Cuts: 2, Crashes: 1, Restarts: 1, Steps: 16, Reorders: -1, MsgSteps: 3, Deviations: d}})
+	}
 	// C16 seed S-snapcatchup (snapshots of two requests): n1 was down while the
 	// leader n0 compacted its log, came back cut off from everybody and stayed
 	// silent for 8 intervals; the link n0-n2 is cut, so n2 campaigns but still
@@ -496,6 +519,12 @@ func init() {
 	for d := 0; d <= 6; d++ {
 		reg(&explore.Suite{Name: fmt.Sprintf("filearmsnap3-d%d", d), Cfg: sim.Config{Voters: 3, SnapAt: 2, FileStore: true, ArmDepth: 6}, Seed: seedLeader3, Monitors: snapMonitors,
 			Budget: sim.Budget{Timeouts: 2, Elapses: 2, Beats: 2, Writes: 3, Cuts: 1, Crashes: 1, Arms: 1, Restarts: 1, Reorders: -1, Splits: 1, Deviations: d}})
+	}
+	// real storages + slow Snapshot / Restore calls: a snapshot that is being written
+	// coexists with readers of the snapshot storage
+	for d := 0; d <= 6; d++ {
+		reg(&explore.Suite{Name: fmt.Sprintf("fileslowsnap3-d%d", d), Cfg: sim.Config{Voters: 3, SnapAt: 2, FileStore: true, HoldFsm: "snapshot,restore"}, Seed: seedLeader3, Monitors: snapDurMonitors,
+			Budget: sim.Budget{Timeouts: 1, Elapses: 1, Beats: 2, Writes: 3, Cuts: 2, Crashes: 1, Restarts: 1, Reorders: -1, Splits: 1, Deviations: d}})
 	}
 	// snapshots on (threshold 2): local snapshots, compaction, installation
 	for d := 0; d <= 6; d++ {
